@@ -59,6 +59,16 @@ StrClauses(o) ==
       IF ~Ok(o.re_matches) THEN C("RegexSameLanguage:exception")
       ELSE IF {o.re_matches.out[j] : j \in 1..Len(o.re_matches.out)} # {s \in Subjects : WildMatch(P, s)}
            THEN C("RegexSameLanguage") ELSE NoC,
+      \* regex transformation: plain = same language; the two ignore-case methods = the case-insensitive language
+      LET SubjCI == SeqsUpTo({o.subjci[j] : j \in 1..Len(o.subjci)}, 3)
+          set(r) == {r.out[j] : j \in 1..Len(r.out)}
+          skipped(r) == r.out = <<(<<0 - 7>>)>>
+      IN  IF P = <<>> THEN NoC            \* the empty string is documented to stay a string
+          ELSE IF \E k \in 1..3 : ~Ok(o.rxt[k]) \/ skipped(o.rxt[k]) THEN C("RegexSameLanguage:transformation-exception")
+          ELSE IF set(o.rxt[1]) # {s \in Subjects : WildMatch(P, s)} THEN C("RegexSameLanguage:transformation-plain")
+          ELSE IF set(o.rxt[2]) # {s \in SubjCI : WildMatchCI(P, s)} THEN C("RegexSameLanguage:transformation-flag")
+          ELSE IF set(o.rxt[3]) # {s \in SubjCI : WildMatchCI(P, s)} THEN C("RegexSameLanguage:transformation-brackets")
+          ELSE NoC,
       IF SliceBad(1, 2, n) THEN C("SliceExact:[1:]")
       ELSE IF SliceBad(2, 1, n - 1) THEN C("SliceExact:[:-1]")
       ELSE IF SliceBad(3, 2, n - 1) THEN C("SliceExact:[1:-1]") ELSE NoC
